@@ -9,7 +9,7 @@ VERUS = shutil.which('verus') or '/usr/local/bin/verus'
 
 # Verus diagnostics that mean "a proof obligation was refuted" (anything else that is an error is a tool problem)
 REFUTED = (
-    'postcondition not satisfied', 'precondition not satisfied', 'possible arithmetic underflow/overflow',
+    'precondition not met', 'postcondition not satisfied', 'precondition not satisfied', 'possible arithmetic underflow/overflow',
     'invariant not satisfied', 'assertion failed', 'possible division by zero', 'decreases not satisfied',
     'could not prove termination', 'loop invariant not satisfied', 'index out of bounds', 'possible bit shift',
     'recommendation not met', 'cannot show invariant holds', 'unable to prove', 'possible truncation',
@@ -30,9 +30,17 @@ class Diag:
     rendered: str
     labels: list = field(default_factory=list)
 
+    verification_phase: bool = False      # set by the runner: the diagnostic was produced while discharging obligations
+
     @property
     def refuted(self) -> bool:
-        return self.level == 'error' and self.code is None and any(m in self.message for m in REFUTED)
+        if self.level != 'error' or self.code is not None or self.undecided:
+            return False
+        if self.message.startswith('aborting due to') or 'not all errors may have been reported' in self.message:
+            return False
+        # Verus reports a refuted obligation as a code-less error during the verification phase (no front-end /
+        # VIR error, at least one function failed). The message list is a second, independent criterion.
+        return self.verification_phase or any(m in self.message for m in REFUTED)
 
     @property
     def undecided(self) -> bool:
@@ -194,6 +202,13 @@ def _run_unit_once(template: str, build_root: str, defines=(), seed: int | None 
                 rec['rlimit'] += fb.get('rlimit', 0)
     except ValueError:
         tool_error = 'verus produced no JSON result: ' + (p.stderr[-2000:] or p.stdout[-2000:])
+    vphase = tool_error is None and errors > 0 and any(not r['success'] for r in functions.values())
+    if vphase:
+        # NOT supported / not allowed messages are front-end rejections even when other functions were verified
+        for d in diags:
+            low = d.message.lower()
+            if not any(x in low for x in ('not supported', 'unsupported', 'is not allowed', 'cannot find', 'expected ', 'mismatched types')):
+                d.verification_phase = True
     hard = [d for d in diags if d.level == 'error' and not d.refuted and not d.message.startswith('aborting due to')
             and 'not all errors may have been reported' not in d.message]
     if tool_error is None and hard:
